@@ -88,11 +88,11 @@ PROPS["C05"] = dict(
           "source root, destination root outside the common prefix and all headers unchanged (whole-storage snapshots); result k equals the same "
           "sample converted alone in a fresh 1-sample buffer (position-wise law); floating-to-floating additionally equals Go's conversion "
           "bit for bit. Non-trivial: length mismatch, window source/destination, >=2 channels, partial frame, float beyond [-1,1]/non-finite."
-          ' Windows in three construction orders; destination optionally pre-filled with +0/-0; for same-type instantiations the two windows may be cut from one parent; every boundary float goes through the four float-to-float instantiations; one 65537..65541-sample case per instantiation.'),
-    quick=dict(rapid=dict(checks=80000, shards=8)),
-    thorough=dict(rapid=dict(checks=300000, shards=16), fuzz=dict(targets=["FuzzC05"], seconds=45)),
+          ' Windows in three construction orders; destination optionally pre-filled with +0/-0; for same-type instantiations the two windows may be cut from one parent; every boundary float goes through the four float-to-float instantiations; one 65537..65541-sample case per instantiation. History mode: generated orders of instantiations are replayed in fresh child processes (the test binary re-executes itself); each step over a fixed probe set must equal the same instantiation as the first library call of a process.'),
+    quick=dict(rapid=dict(checks=80000, shards=8), det="TestRegress|TestSweep|TestHistory"),
+    thorough=dict(rapid=dict(checks=300000, shards=16), fuzz=dict(targets=["FuzzC05"], seconds=45), det="TestRegress|TestSweep|TestHistory"),
     assumptions=COMMON_ASSUME,
-    technique="property-based testing (rapid) + bounded-exhaustive shape sweep: whole-storage frame condition plus metamorphic single-sample re-conversion; direct oracle for float-to-float",
+    technique="property-based testing (rapid) + bounded-exhaustive shape sweep: whole-storage frame condition plus metamorphic single-sample re-conversion; direct oracle for float-to-float; metamorphic process-history independence (generated call orders replayed in fresh processes)",
     level_text=("Generated-input search over all 169 instantiations; exhaustive over all window pairs of roots <=2 (3) frames, C<=3, per instantiation; "
                 "values and larger shapes sampled. The numeric correctness of the point function is C06-C09's. Operand content may be appended in two pieces (single samples, then an in-place Append), both ending in partial frames. 34 instantiations with named element types are part of the table. The whole root header itself, filled only through an alias, may be the operand (fix 3)."),
     level_note="The position-wise law compares two contexts of the same conversion; trusts Alloc/Slice/AppendSample/Sample to build fixtures.",
@@ -160,7 +160,7 @@ PROPS["C20"] = dict(
     assumptions=COMMON_ASSUME,
     technique="bounded-exhaustive cross product of entry points x degenerate shapes + property-based testing (rapid); oracle = no panic, zero counts, whole-state snapshots",
     level_text=("Exhaustive cross product of every exported entry point x every degenerate allocator on a small grid x all types/pairs/instantiations; "
-                "larger degenerate shapes and partner sizes sampled by rapid. Pooled zero-length buffers are used (AppendSample) before they go back. Three named element types and nine named/underlying Read/Write pairs. After Slice(0,0) of a zero-capacity buffer one of the two grows by an Append; the other must stay inert. Two to four buffers of a degenerate pool are outstanding together and all put back. Empty zero-capacity buffers with 0..3 channels allocated elsewhere are offered to every pool without storage."),
+                "larger degenerate shapes and partner sizes sampled by rapid. Pooled zero-length buffers are used (AppendSample) before they go back. Three named element types and nine named/underlying Read/Write pairs. After Slice(0,0) of a zero-capacity buffer one of the two grows by an Append; the other must stay inert. Two to four buffers of a degenerate pool are outstanding together and all put back. Empty zero-capacity buffers with 0..3 channels allocated elsewhere are offered to every pool without storage. Degenerate buffers with 255..2^17 channels (around the ranges of 8- and 16-bit counters) are swept and drawn."),
     level_note="For ChannelLength(n>0, 0), a combination no buffer can produce, only 'no panic and a result in [0,n]' is demanded.",
 )
 NUM_ASSUME = COMMON_ASSUME + [
@@ -182,7 +182,7 @@ PROPS["C06"] = dict(
     assumptions=NUM_ASSUME,
     technique="exhaustive enumeration of all 8/16/32-bit source codes in amplitude order + property-based testing (rapid) on 64-bit sources; order and reference-level oracle in exact integer arithmetic",
     level_text=("Complete enumeration of every 8- and 16-bit source code (quick) and every 32-bit source code (thorough) for all destinations decides order "
-                "preservation exactly on those sub-domains; 64-bit sources are sampled densely at boundaries and at random (order is checked on sorted samples). Long and wide at once: 12 channels x 40000 and 64 channels x 70001 samples per pair in the sweep; rapid couples very long buffers with 1..64 channels. Operands may also have grown out of an empty window (Slice(fr,fr) then Append). Named element types (34 further instantiations); a source that was the output of a conversion and is converted through a window cut then (fix 5). Operands of unequal length (source or destination two frames longer). One destination buffer per destination type may be shared by all instantiations (fix 8). A source that was converted into a shorter destination before (fix 9)."),
+                "preservation exactly on those sub-domains; 64-bit sources are sampled densely at boundaries and at random (order is checked on sorted samples). Long and wide at once: 12 channels x 40000 and 64 channels x 70001 samples per pair in the sweep; rapid couples very long buffers with 1..64 channels. Operands may also have grown out of an empty window (Slice(fr,fr) then Append). Named element types (34 further instantiations); a source that was the output of a conversion and is converted through a window cut then (fix 5). Operands of unequal length (source or destination two frames longer). One destination buffer per destination type may be shared by all instantiations (fix 8). A source that was converted into a shorter destination before (fix 9). Output in pieces: two adjacent destination windows of one parent, the source going on beyond the first (fix 10)."),
     level_note="Order preservation between two arbitrary 64-bit inputs is only sampled; adjacent-code monotonicity on the swept domains implies it there.",
 )
 
@@ -197,7 +197,7 @@ PROPS["C07"] = dict(
     assumptions=NUM_ASSUME,
     technique="exhaustive enumeration of all 8/16/32-bit source codes + property-based testing (rapid) on 64-bit sources; floor/ceil accuracy oracle and widen-then-narrow round trip in exact integer arithmetic",
     level_text=("Complete enumeration of every 8/16-bit (quick) and 32-bit (thorough) source code for all 11 destinations, including every widen-and-back "
-                "composition; 64-bit sources sampled at boundaries and at random. Long and wide at once: 12 channels x 40000 and 64 channels x 70001 samples per pair in the sweep; rapid couples very long buffers with 1..64 channels. Operands may also have grown out of an empty window (Slice(fr,fr) then Append). Named element types (34 further instantiations); a source that was the output of a conversion and is converted through a window cut then (fix 5). Operands of unequal length (source or destination two frames longer). One destination buffer per destination type may be shared by all instantiations (fix 8). A source that was converted into a shorter destination before (fix 9)."),
+                "composition; 64-bit sources sampled at boundaries and at random. Long and wide at once: 12 channels x 40000 and 64 channels x 70001 samples per pair in the sweep; rapid couples very long buffers with 1..64 channels. Operands may also have grown out of an empty window (Slice(fr,fr) then Append). Named element types (34 further instantiations); a source that was the output of a conversion and is converted through a window cut then (fix 5). Operands of unequal length (source or destination two frames longer). One destination buffer per destination type may be shared by all instantiations (fix 8). A source that was converted into a shorter destination before (fix 9). Output in pieces: two adjacent destination windows of one parent, the source going on beyond the first (fix 10)."),
     level_note="Round trips return to every element type with the source's signedness and depth (int/int64, uint/uint64/uintptr).",
 )
 
@@ -216,7 +216,7 @@ PROPS["C08"] = dict(
     assumptions=NUM_ASSUME + ["NaN inputs are excluded (result unspecified by the property)", "the verdict is for linux/amd64, where the library relies on the platform's float-to-integer conversion for in-range negative inputs to unsigned types"],
     technique="exhaustive enumeration of all float32 bit patterns (thorough) + boundary-dense sweep + property-based testing (rapid) and native fuzzing; clip/linearity/monotonicity oracle decided with exact 128-bit arithmetic",
     level_text=("Every non-NaN float32 input for all 11 float32-source instantiations is enumerated in numeric order (thorough), which decides clipping, accuracy and "
-                "monotonicity exactly there; float64 inputs are sampled densely at the boundaries the property names and at random. Long and wide at once: 12 channels x 40000 and 64 channels x 70001 samples per instantiation in the sweep; rapid couples very long buffers with 1..64 channels. Operands may also have grown out of an empty window (Slice(fr,fr) then Append). Named element types (34 further instantiations); a source that was the output of a conversion and is converted through a window cut then (fix 5). Operands of unequal length (source or destination two frames longer). One destination buffer per destination type may be shared by all instantiations (fix 8). A source that was converted into a shorter destination before (fix 9)."),
+                "monotonicity exactly there; float64 inputs are sampled densely at the boundaries the property names and at random. Long and wide at once: 12 channels x 40000 and 64 channels x 70001 samples per instantiation in the sweep; rapid couples very long buffers with 1..64 channels. Operands may also have grown out of an empty window (Slice(fr,fr) then Append). Named element types (34 further instantiations); a source that was the output of a conversion and is converted through a window cut then (fix 5). Operands of unequal length (source or destination two frames longer). One destination buffer per destination type may be shared by all instantiations (fix 8). A source that was converted into a shorter destination before (fix 9). Output in pieces: two adjacent destination windows of one parent, the source going on beyond the first (fix 10)."),
     level_note="The one-step tolerance is the property's own; the oracle has no floating tolerance of its own (exact integer comparison).",
 )
 
@@ -234,7 +234,7 @@ PROPS["C09"] = dict(
     assumptions=NUM_ASSUME,
     technique="exhaustive enumeration of all 8/16/32-bit source codes + property-based testing (rapid) on 64-bit sources; range/level/order/accuracy oracle and round trip through the inverse conversion",
     level_text=("Complete enumeration of every 8/16-bit (quick) and 32-bit (thorough) code into both float types, with injectivity and round trips; 64-bit sources "
-                "sampled. One known finding (F9, UnsignedAsFloat) is reported as KNOWN-FINDING and excluded by a structural predicate. Long and wide at once: 12 channels x 40000 and 64 channels x 70001 samples per pair in the sweep; rapid couples very long buffers with 1..64 channels. Operands may also have grown out of an empty window (Slice(fr,fr) then Append). Named element types (34 further instantiations); a source that was the output of a conversion and is converted through a window cut then (fix 5). Operands of unequal length (source or destination two frames longer). One destination buffer per destination type may be shared by all instantiations (fix 8); the same values are converted again in three other arrangements and compared bit for bit. A source that was converted into a shorter destination before (fix 9)."),
+                "sampled. One known finding (F9, UnsignedAsFloat) is reported as KNOWN-FINDING and excluded by a structural predicate. Long and wide at once: 12 channels x 40000 and 64 channels x 70001 samples per pair in the sweep; rapid couples very long buffers with 1..64 channels. Operands may also have grown out of an empty window (Slice(fr,fr) then Append). Named element types (34 further instantiations); a source that was the output of a conversion and is converted through a window cut then (fix 5). Operands of unequal length (source or destination two frames longer). One destination buffer per destination type may be shared by all instantiations (fix 8); the same values are converted again in three other arrangements and compared bit for bit. A source that was converted into a shorter destination before (fix 9). Output in pieces: two adjacent destination windows of one parent, the source going on beyond the first (fix 10)."),
     level_note="'plus float rounding' is taken as 4 ulp of 1 in the destination float type.",
 )
 PROPS["C16"] = dict(
@@ -264,7 +264,7 @@ PROPS["C17"] = dict(
     thorough=dict(rapid=dict(checks=300000, shards=16), fuzz=dict(targets=["FuzzC17"], seconds=20)),
     assumptions=COMMON_ASSUME + ["'plus float rounding' is taken as a relative 2^-50 of the exact value (two float64 roundings)"],
     technique="property-based testing (rapid) with tie-seeking generators + deterministic grid over standard rates, compared with exact rational arithmetic",
-    level_text=("Sampled exploration with an exact rational oracle; the standard rates are covered by a deterministic grid (first 300 counts, +-3 around every hour up to 24 h). Arguments whose product (rate x duration, count x 10^9) lies next to a multiple of 2^53, 2^63 or 2^64 are drawn and swept."),
+    level_text=("Sampled exploration with an exact rational oracle; the standard rates are covered by a deterministic grid (first 300 counts, +-3 around every hour up to 24 h). Arguments whose product (rate x duration, count x 10^9) lies next to a multiple of 2^53, 2^63 or 2^64 are drawn and swept. Round arguments (multiples of 1 us ... 1 min; of powers of ten and block sizes) with both neighbours are drawn and swept."),
     level_note="Domain limited to 0.01 Hz <= f <= 10 MHz, spans up to 24 h, as the property quantifies.",
 )
 PROPS["C10"] = dict(
@@ -336,7 +336,7 @@ PROPS["C11"] = dict(
     technique="randomised concurrent stress under the Go race detector with rapid-generated configurations (goroutines, GOMAXPROCS, yield points, GC); freshness and ownership-stamp oracle",
     level_text=("Schedule sampling, not enumeration: rapid generates the concurrency configuration, the Go scheduler picks the interleaving. Decisive for the realistic defect classes "
                 "(unsynchronised shared state in the pool, shared buffers handed out twice) through the race detector and ownership stamps; a defect needing one specific "
-                "preemption point is out of reach (DESIGN.md section 6). Goroutines hold 1..4 buffers at the same time (released in get order or newest first); hammer cases run thousands of cycles on tiny buffers, a third of them with a shared ownership table; a third of the cases put back a Slice(0,k) view instead of the buffer; in half of the cases by-value goroutines copy the allocator while others already use it; the bookkeeping keeps no pointer to a buffer that went back; a quarter of the stamps of floating types are -0."),
+                "preemption point is out of reach (DESIGN.md section 6). Goroutines hold 1..4 buffers at the same time (released in get order or newest first); hammer cases run thousands of cycles on tiny buffers, a third of them with a shared ownership table; a third of the cases put back a Slice(0,k) view instead of the buffer; in half of the cases by-value goroutines copy the allocator while others already use it; the bookkeeping keeps no pointer to a buffer that went back; a quarter of the stamps of floating types are -0; in two thirds of the cases holders first grow the header they obtained to its capacity (AppendSample or Append) and read it back before Put."),
     level_note="Race reports are turned into violations with the process log as the replay artefact; so is an abort of the race build's pointer checker (checkptr) whose innermost non-runtime frame is in pipelined.dev/signal.",
 )
 FIRSTUSE = [dict(name="firstuse-" + t, run="TestFirstUse", env={"VERIF_FIRST_TYPE": t})
@@ -358,7 +358,7 @@ PROPS["C19"] = dict(
                                  "the race detector reports unordered conflicting accesses that actually executed"],
     technique="randomised concurrent stress under the Go race detector with rapid-generated reader/writer scripts; differential oracle against the sequential execution of the same scripts",
     level_text=("Schedule sampling, not enumeration. Hidden shared mutable state in a read path or a write outside a slice's window is an unordered conflicting access, which the race "
-                "detector reports whenever both accesses execute, whatever the interleaving; results are also compared with a sequential run. A fifth of the cases use 5..17 (rarely 60..70) channels; the sweep includes 9 and 16. Writer windows may reach into the spare capacity, with a boundary right behind a partial last frame; reader results are rendered without package fmt (its pooled printers would order the goroutines); writers offer inputs longer than their window, also to an empty window; a third of the cases take the shared buffer from a pool allocator, a quarter from a growing Append (no Cap() or Slice() call on it before the goroutines start); conversions also run from and into the same-width twin type."),
+                "detector reports whenever both accesses execute, whatever the interleaving; results are also compared with a sequential run. A fifth of the cases use 5..17 (rarely 60..70) channels; the sweep includes 9 and 16. Writer windows may reach into the spare capacity, with a boundary right behind a partial last frame; reader results are rendered without package fmt (its pooled printers would order the goroutines); writers offer inputs longer than their window, also to an empty window; a third of the cases take the shared buffer from a pool allocator, a quarter from a growing Append (no Cap() or Slice() call on it before the goroutines start); conversions also run from and into the same-width twin type; conversions also read straight from the shared header into a destination that ends with the read-only frames; in half of the cases floating content lies strictly inside (-1,1)."),
     level_note="Race reports are turned into violations with the process log as the replay artefact; so is an abort of the race build's pointer checker (checkptr) whose innermost non-runtime frame is in pipelined.dev/signal.",
 )
 
